@@ -108,3 +108,42 @@ impl MandatoryHeaderExtensionManager for TestMgr {
         }
     }
 }
+
+/// Manager that knows exactly the mandatory entries of a chain shape (ids symbolic):
+/// the last mandatory entry is Final when `last_is_final`, all others NonFinal.
+#[derive(Copy, Clone)]
+pub struct ShapeMgr {
+    pub ids: [u16; 4],
+    pub sizes: [u8; 4],
+    pub is_final: [bool; 4],
+    pub known: [bool; 4],
+}
+
+impl MandatoryHeaderExtensionManager for ShapeMgr {
+    fn is_mandatory_header_id_known(&self, id: u16) -> MandatoryHeaderExt {
+        if self.known[0] && id == self.ids[0] {
+            return if self.is_final[0] { MandatoryHeaderExt::Final(self.sizes[0]) } else { MandatoryHeaderExt::NonFinal(self.sizes[0]) };
+        }
+        if self.known[1] && id == self.ids[1] {
+            return if self.is_final[1] { MandatoryHeaderExt::Final(self.sizes[1]) } else { MandatoryHeaderExt::NonFinal(self.sizes[1]) };
+        }
+        if self.known[2] && id == self.ids[2] {
+            return if self.is_final[2] { MandatoryHeaderExt::Final(self.sizes[2]) } else { MandatoryHeaderExt::NonFinal(self.sizes[2]) };
+        }
+        if self.known[3] && id == self.ids[3] {
+            return if self.is_final[3] { MandatoryHeaderExt::Final(self.sizes[3]) } else { MandatoryHeaderExt::NonFinal(self.sizes[3]) };
+        }
+        MandatoryHeaderExt::Unknown
+    }
+}
+
+/// Symbolic chain description for a concrete shape (no crate values involved).
+pub fn mk_spec(c: Class) -> ExtSpec {
+    let data: [u8; 8] = kani::any();
+    let low: u8 = kani::any();
+    match c {
+        Class::O(n) => ExtSpec { id: (((n / 2 + 1) as u16) << 8) | low as u16, data, dlen: n, mandatory: false },
+        Class::M(n) => ExtSpec { id: low as u16, data, dlen: n, mandatory: true },
+        Class::MId(id, n) => ExtSpec { id, data, dlen: n, mandatory: true },
+    }
+}
